@@ -495,3 +495,46 @@ pub fn swapped_duplicates(rng: &mut Rng, spec: &TreeSpec, three: bool) -> HctlTr
     }
     t
 }
+
+/// The same ONE-variable sub-formula under two (or three) different variable names that lie at different quantifier
+/// depths, so that after preprocessing the later occurrences are served from the cache and renamed.  The sub-formula
+/// reaches its variable through a jump to a variable-free body, i.e. the cached set constrains only some of the
+/// variable's bits (or none) — the case in which a renaming that inspects the support of the set goes wrong.
+pub fn renamed_duplicates(rng: &mut Rng, spec: &TreeSpec, three: bool) -> HctlTreeNode {
+    let mut bspec = spec.clone();
+    bspec.hybops.clear();
+    bspec.vars.clear();
+    bspec.consts = false;
+    let phi_size = 1 + rng.below(3);
+    let phi = rand_tree(rng, &bspec, phi_size, &mut Vec::new(), true);
+    let shape = rng.below(5);
+    let un = rng.pick(&[UnaryOp::EX, UnaryOp::AX, UnaryOp::EF, UnaryOp::AG, UnaryOp::Not]).clone();
+    let bop = rng.pick(&[BinaryOp::And, BinaryOp::Or, BinaryOp::EU, BinaryOp::Xor]).clone();
+    let mk = |v: &str| -> HctlTreeNode {
+        let j = HctlTreeNode::mk_hybrid(phi.clone(), v, None, HybridOp::Jump);
+        match shape {
+            0 | 1 => j,
+            2 => HctlTreeNode::mk_unary(j, un.clone()),
+            3 => HctlTreeNode::mk_binary(j, HctlTreeNode::mk_unary(HctlTreeNode::mk_variable(v), UnaryOp::EF), bop.clone()),
+            _ => HctlTreeNode::mk_hybrid(HctlTreeNode::mk_unary(phi.clone(), un.clone()), v, None, HybridOp::Jump),
+        }
+    };
+    let names: Vec<&str> = if three { vec!["x", "y", "z"] } else { vec!["x", "y"] };
+    let mut t = mk(names[names.len() - 1]);
+    if rng.chance(1, 2) {
+        t = HctlTreeNode::mk_unary(t, UnaryOp::Not);
+    }
+    let quants = [HybridOp::Bind, HybridOp::Exists, HybridOp::Forall];
+    let glue = [BinaryOp::And, BinaryOp::Or, BinaryOp::Xor, BinaryOp::Imp, BinaryOp::Iff];
+    // innermost variable first: Q{z}: ..., then (S(y) op Q{z}: ...), Q{y}: ..., and so on outwards
+    for i in (0..names.len()).rev() {
+        let d = if !spec.doms.is_empty() && rng.chance(1, 3) { Some(rng.pick(&spec.doms).clone()) } else { None };
+        t = HctlTreeNode::mk_hybrid(t, names[i], d, rng.pick(&quants).clone());
+        if i > 0 {
+            let s_outer = mk(names[i - 1]);
+            let op = rng.pick(&glue).clone();
+            t = if rng.chance(1, 2) { HctlTreeNode::mk_binary(s_outer, t, op) } else { HctlTreeNode::mk_binary(t, s_outer, op) };
+        }
+    }
+    t
+}
